@@ -67,6 +67,81 @@ def run(rep, prog, tier):
     r2(rep, prog)
     r3(rep, prog)
     r4(rep, prog)
+    r5(rep, prog)
+
+
+def r5(rep, prog):
+    """RegexTokenStream keeps a byte cursor next to the text it has not consumed yet"""
+    from ..mergecov import Aliases, fmt_path
+    R = "C19-R5"
+    rep.rule(R, "cursor bookkeeping of the regex tokenizer: offsets are `cursor + match.start()/end()` where `cursor` is the number of bytes already cut off the front of `text`; so every store into self.cursor adds `m.end()` of a regex Match and every store into self.text is `&self.text[m.end()..]` of the same Match (a RangeFrom slice of the text itself): the two advance by the same number of bytes on every path")
+    fid = "<tantivy::tokenizer::regex_tokenizer::RegexTokenStream<'_> as tantivy_tokenizer_api::TokenStream>::advance"
+    b = get_body(rep, prog, R, fid)
+    if b is None:
+        return
+    al = Aliases(b, {1: "self"})
+
+    def match_end_source(l):
+        """local of the Match whose end() produced l, or None"""
+        tr = trace_back(b, l)
+        if tr and tr[-1][0] == "call" and tr[-1][1].endswith("Match::<'h>::end") and all(s[0] in ("use", "cast") for s in tr[:-1]):
+            t = b.term(tr[-1][2])
+            cur_l = op_local(t["args"][0])
+            for _ in range(8):
+                ds = b.defs().get(cur_l, [])
+                if len(ds) != 1 or ds[0][0] != "stmt":
+                    break
+                st_ = ds[0][3]
+                if st_.get("r") in ("ref", "rawptr") and is_bare(st_["p"]):
+                    cur_l = st_["p"]
+                elif st_.get("r") in ("use",) and op_place(st_["o"][0]) is not None and is_bare(op_place(st_["o"][0])):
+                    cur_l = op_place(st_["o"][0])
+                else:
+                    break
+            return cur_l
+        return None
+    cur, txt = [], []
+    for bi in b.normal_blocks():
+        for i, st in enumerate(b.stmts(bi)):
+            if is_bare(st["d"]):
+                continue
+            r = al.resolve(st["d"])
+            if not r or r[0] != "self":
+                continue
+            if r[1] == (("f", "cursor"),):
+                # `self.cursor = (self.cursor + k).0`
+                src = op_local(st["o"][0]) if st.get("o") else None
+                m = None
+                tr = trace_back(b, src) if src is not None else []
+                if tr and tr[-1][0] == "bin" and tr[-1][1] in ("AddWithOverflow", "Add"):
+                    bst = b.stmts(tr[-1][2])[tr[-1][3]]
+                    ops = bst.get("o", [])
+                    if len(ops) == 2:
+                        r0 = al.resolve(op_place(ops[0]))
+                        if r0 == ("self", (("f", "cursor"),)) and op_local(ops[1]) is not None:
+                            m = match_end_source(op_local(ops[1]))
+                cur.append((bi, m))
+            elif r[1] == (("f", "text"),):
+                src = op_local(st["o"][0]) if st.get("o") else None
+                m = None
+                tr = trace_back(b, src) if src is not None else []
+                call = next((s for s in tr if s[0] == "call"), None)
+                if call and call[1].endswith("::index") and "str" in call[1]:
+                    t = b.term(call[2])
+                    base = al.resolve(op_place(t["args"][0]))
+                    rng = trace_back(b, op_local(t["args"][1])) if op_local(t["args"][1]) is not None else []
+                    if base and base[1][:1] == (("f", "text"),) and rng and rng[-1][0] == "agg" and str(rng[-1][1]).endswith("RangeFrom::RangeFrom"):
+                        ast = b.stmts(rng[-1][2])[rng[-1][3]]
+                        if ast.get("o") and op_local(ast["o"][0]) is not None:
+                            m = match_end_source(op_local(ast["o"][0]))
+                txt.append((bi, m))
+    rep.check(len(cur) >= 1 and all(m is not None for _, m in cur), R, "every store into self.cursor adds Match::end()", "%d store(s)" % len(cur),
+              "RegexTokenStream::advance stores into self.cursor something else than `self.cursor + m.end()`: the byte cursor and the remaining text can drift apart, every later token gets shifted offsets", site=site(b, cur[0][0]) if cur else b.span)
+    rep.check(len(txt) >= 1 and all(m is not None for _, m in txt), R, "every store into self.text is &self.text[m.end()..]", "%d store(s)" % len(txt),
+              "RegexTokenStream::advance re-assigns self.text from something else than the RangeFrom slice `&self.text[m.end()..]`: the bytes cut off the text are not the bytes added to the cursor", site=site(b, txt[0][0]) if txt else b.span)
+    ms = {m for _, m in cur + txt if m is not None}
+    rep.check(len(cur) == len(txt) and len(ms) <= 1, R, "cursor and text advance by the end of the same Match", "match local %s" % sorted(ms),
+              "self.cursor and self.text are not advanced pairwise by the same Match (%d cursor store(s), %d text store(s), matches %s)" % (len(cur), len(txt), sorted(ms)), site=b.span)
 
 
 def r1(rep, prog):
